@@ -14,14 +14,14 @@ import shutil
 import subprocess
 import time
 
-from kani_run import CACHE, ENV, crate_dir
+from kani_run import CACHE, ENV, TAG, crate_dir
 
 KANI_HOME = os.path.expanduser("~/.kani/kani-0.68.0")
 REPLAY_TIMEOUT = int(os.environ.get("VERIF_REPLAY_TIMEOUT", "900"))
 
 
 def _prepare(crate):
-    dst = os.path.join(CACHE, "replay", crate)
+    dst = os.path.join(CACHE, "replay" + TAG, crate)
     os.makedirs(dst, exist_ok=True)
     src = crate_dir(crate)
     # refresh sources, keep target/
@@ -36,7 +36,7 @@ def _prepare(crate):
         else:
             shutil.copy2(s, d)
     # harness crates include ../../common/*.rs by relative #[path]
-    common_dst = os.path.join(CACHE, "replay", "common")
+    common_dst = os.path.join(CACHE, "replay" + TAG, "common")
     if os.path.exists(common_dst):
         shutil.rmtree(common_dst)
     shutil.copytree(os.path.join(os.path.dirname(src), "common"), common_dst)
@@ -50,8 +50,8 @@ def test_name(test_src):
 
 def replay(crate, module, test_src, log_path=None):
     """Returns dict(release=..., dev=...) with values 'reproduced' | 'not_reproduced' | 'error'."""
-    os.makedirs(os.path.join(CACHE, "replay"), exist_ok=True)
-    lock = os.open(os.path.join(CACHE, "replay", crate + ".lock"), os.O_CREAT | os.O_RDWR)
+    os.makedirs(os.path.join(CACHE, "replay" + TAG), exist_ok=True)
+    lock = os.open(os.path.join(CACHE, "replay" + TAG, crate + ".lock"), os.O_CREAT | os.O_RDWR)
     fcntl.flock(lock, fcntl.LOCK_EX)
     out_all = ""
     result = {}
